@@ -4,4 +4,4 @@ Require Import ZV.Model.MapWalkKeys.
 Extraction "model.ml" Z.add Z.mul Z.opp Z.div_eucl Z.of_nat Z.to_nat Z.compare
   str_ltb str_eqb sort_strings sorted_slices folded_slices ascii_lower
   new_zlisp_symtab new_zlisp_symtab_unsorted symnums spec_builtin_symnum rank s_null s_nil
-  assoc_lookup named_args_final first_offender_walk first_offender_sorted.
+  assoc_lookup named_args_final named_args_check first_offender_walk first_offender_sorted.
